@@ -359,12 +359,7 @@ func c10WebCase(c *Ctx, cs *c10Case) {
 	case "conc":
 		c10WebConcPhase(e)
 	case "stall":
-		if h := e.server(0); h != nil {
-			for _, o := range cs.Others {
-				c10Get(h, o)
-			}
-			c10WebStallPhase(c, cs, h, e.stallURLs(), e)
-		}
+		c10WebStallPhase(c, cs, e.stallURLs(), e)
 	case "multi":
 		c10WebMultiPhase(e)
 	default:
@@ -467,6 +462,12 @@ func c10WebSeqPhase(e *c10WebEnv) {
 // phase "conc": the VERY FIRST page renders of the process are a burst of simultaneous requests (lazy
 // process-wide initialisation must not be observable), then r alone, then r in the middle of the others.
 func c10WebConcPhase(e *c10WebEnv) {
+	// a third of the cases each with 1, 2 and all CPUs, set BEFORE the server exists; the burst below has
+	// 12 ≥ 4×GOMAXPROCS simultaneous requests in the first two
+	if procs := []int{1, 2, 0}[len(e.cs.Others)%3]; procs > 0 {
+		defer runtime.GOMAXPROCS(runtime.GOMAXPROCS(procs))
+		e.c.Res.Hit(fmt.Sprintf("web-conc-GOMAXPROCS=%d", procs))
+	}
 	h := e.server(0)
 	if h == nil {
 		return
@@ -587,10 +588,20 @@ func (w *c10StallWriter) Write(p []byte) (int, error) {
 	return len(p), nil
 }
 
-func c10WebStallPhase(c *Ctx, cs *c10Case, h map[string]http.Handler, urls []string, e *c10WebEnv) {
-	procsList := []int{1, runtime.NumCPU()}
+func c10WebStallPhase(c *Ctx, cs *c10Case, urls []string, e *c10WebEnv) {
+	procsList := []int{1, 2, runtime.NumCPU()}
 	for _, procs := range procsList {
 		old := runtime.GOMAXPROCS(procs)
+		// the server is created AFTER GOMAXPROCS is set: whatever it sizes by the CPU count (worker pools,
+		// admission limits) is then smaller than the number of requests kept in flight below
+		h := e.server(0)
+		if h == nil {
+			runtime.GOMAXPROCS(old)
+			return
+		}
+		for _, o := range cs.Others {
+			c10Get(h, o)
+		}
 		gate := make(chan struct{})
 		type inflight struct {
 			url  string
